@@ -12,7 +12,7 @@ import time
 
 REPO = os.environ.get('REPO', '/repo')
 VERIF = os.path.dirname(os.path.dirname(os.path.abspath(__file__)))
-LEAN = os.path.join(VERIF, 'lean')
+LEAN = os.environ.get('VERIF_LEAN_DIR') or os.path.join(VERIF, 'lean')   # seeded runs use a private copy
 DRIVER = os.path.join(LEAN, '.lake', 'build', 'bin', 'tsmodel')
 
 if sys.path[0] != REPO:
